@@ -90,6 +90,9 @@ func (c *Ctx) mustFollowOpt(fn *ssa.Function, what string, starts []start, b Sel
 				return true
 			})
 			for e := range be {
+				if cut[e] {
+					continue // a pruned / tabled edge that happens to be a back edge
+				}
 				if arrived[e.From] {
 					bad = append(bad, fmt.Sprintf("next iteration (back edge from the block ending at %s) reachable from %s without %s", c.at(e.From.Instrs[len(e.From.Instrs)-1]), s.desc, bname))
 				}
